@@ -939,7 +939,7 @@ impl Described for Judged {
 }
 
 src_text! { LEVEL_SRC,
-#[derive(Deserr, Debug)]
+#[derive(Deserr, Debug, Clone, PartialEq, Eq, Hash, PartialOrd, Ord)]
 #[deserr(rename_all = lowercase, validate = probe::validate_p::<9041, Self> -> ProbeErr,
          where_predicate = __Deserr_E: deserr::MergeWithError<ProbeErr>)]
 pub enum Level {
@@ -1100,6 +1100,9 @@ pub fn hand_entries() -> Vec<(Entry, bool)> {
         (Entry::generic::<(Strict, Vec<Camel>)>("(Strict, Vec<Camel>)", "", "hand"), true),
         (Entry::generic::<Vec<Search>>("Vec<Search>", "", "hand"), false),
         (Entry::generic::<Mixed>("Mixed", MIXED_SRC, "hand"), true),
+        // sets whose members have a container-level validate (the member's position is observable)
+        (Entry::generic::<BTreeSet<Level>>("BTreeSet<Level>", "", "hand"), true),
+        (Entry::generic::<HashSet<Level>>("HashSet<Level>", "", "hand"), true),
         (Entry::generic::<Paged>("Paged", PAGED_SRC, "hand"), true),
         (Entry::generic::<Vec<Paged>>("Vec<Paged>", "", "hand"), true),
         (Entry::generic::<Intl>("Intl", INTL_SRC, "hand"), true),
